@@ -976,6 +976,13 @@ MUTANTS = [
          "        op->next.store(res, std::memory_order_relaxed);\n        pending_operations.store(op);")]),
     dict(name='c13-handler-busy-relaxed', prop='C13', clause='D1', edits=[
         (AGG_H, "        handler_busy.store(0, std::memory_order_release);", "        handler_busy.store(0, std::memory_order_relaxed);")]),
+    dict(name='c13-seed3-next-read-after-status-published', prop='C13', clause='D2', edits=[(CPQ_H, """            if (data.empty()) {
+                tmp->status.store(uintptr_t(FAILED), std::memory_order_release);
+            } else {""", """            if (data.empty()) {
+                for (; tmp; tmp = tmp->next.load(std::memory_order_relaxed))
+                    tmp->status.store(uintptr_t(FAILED), std::memory_order_release);
+                break;
+            } else {""")]),
     # ---------------------------------------------------------------- C14
     dict(name='c14-occupy-without-limit', prop='C14', clause='D3', edits=[
         (FGN_H, "            case occupy_concurrency:\n                if (my_concurrency < my_max_concurrency) {\n                    ++my_concurrency;\n                    tmp->status.store(SUCCEEDED, std::memory_order_release);\n                } else {\n                    tmp->status.store(FAILED, std::memory_order_release);\n                }\n                break;",
